@@ -730,7 +730,7 @@ func (ss *session) execOn(in *inst, idx int, f []string) string {
 			exp = "err-val"
 		} else if len(kb) > 0 && kb[0] == 0xEE {
 			exp = "err-key"
-		} else if _, present := in.want[string(kb)]; in.fctl.region == 0 {
+		} else if _, present := in.want[string(kb)]; in.fctl.region == 0 && !in.fctl.read {
 			exp = "err-raw" // the raw-key mirror is written for every Set
 		} else if in.fctl.region == 3 && !present {
 			exp = "err-size" // the size cell is written when the key is new
@@ -895,7 +895,7 @@ func (ss *session) execOn(in *inst, idx int, f []string) string {
 			if len(kb) > 0 && kb[0] == 0xEE {
 				exp = "err-key"
 			}
-			if w && in.fctl.region == 0 && exp != "err-key" {
+			if w && in.fctl.region == 0 && !in.fctl.read && exp != "err-key" {
 				exp = "err-raw"
 			} else if w && in.fctl.region == 3 && exp != "err-key" {
 				exp = "err-size"
@@ -940,10 +940,19 @@ func (ss *session) execOn(in *inst, idx int, f []string) string {
 			end = "err-dec"
 		case strings.Contains(serr.Error(), "failed to iterate over raw keys") && errors.Is(serr, errDecode):
 			end = "err-keydec"
+		case strings.Contains(serr.Error(), "failed to iterate over raw keys") && errors.Is(serr, errFault):
+			// the iteration itself failed: nothing may have reached the callback
+			if check && (!(in.fctl.read && in.fctl.region == 0) || len(ps) != 0) {
+				ss.fail("stream-agrees", "stream", in, fmt.Sprintf("Stream reported an iteration error after %d pairs (raw-key read fault injected: %v)", len(ps), in.fctl.read))
+			}
+
+			return "err-iter"
 		default:
 			end = "err"
 		}
-		if check {
+		if check && in.fctl.read && in.fctl.region == 0 {
+			ss.fail("stream-agrees", "stream", in, "Stream ended "+end+" although the raw keys cannot be iterated")
+		} else if check {
 			ss.checkStream(in, ps, end, stop)
 		}
 
@@ -953,9 +962,12 @@ func (ss *session) execOn(in *inst, idx int, f []string) string {
 		if len(f) != 3 {
 			return "bad-op"
 		}
+		in.fctl.read = false
 		switch f[2] {
 		case "off":
 			in.fctl.region = -1
+		case "raw-r":
+			in.fctl.region, in.fctl.read = 0, true
 		case "raw-w":
 			in.fctl.region = 0
 		case "root-w":
@@ -1461,6 +1473,11 @@ func (g *gen) idfailEpisode(i int) []string {
 // raw-key store cannot be written during Set / Delete (no roll-back: the property is silent about the instance from
 // the first call that failed half way; the model follows the code).
 func (g *gen) faultEpisode(i int) []string {
+	if g.rng.Chance(1, 5) {
+		// the raw keys cannot be iterated: Stream fails without calling back, everything else works
+		return []string{fmt.Sprintf("fault %d raw-r", i), fmt.Sprintf("stream %d 0", i), g.setOp(i, g.key(), g.val()), fmt.Sprintf("stream %d 1", i), g.readOp(i),
+			fmt.Sprintf("fault %d off", i), fmt.Sprintf("stream %d 0", i)}
+	}
 	switch g.rng.Intn(3) {
 	case 0:
 		return []string{fmt.Sprintf("fault %d root-w", i), fmt.Sprintf("commit %d", i), fmt.Sprintf("restored %d", i), fmt.Sprintf("peek %d", i), fmt.Sprintf("fault %d off", i)}
@@ -2131,6 +2148,8 @@ func main() {
 		"commit 0", "reopen 0", "root 0", "fault 0 size-w", "set 0 " + k.Core[0] + " 63", "set 0 " + k.Core[2] + " 64", "size 0", "has 0 " + k.Core[2], "stream 0 0", "del 0 " + k.Core[1], "size 0", "peek 0",
 		"fault 0 off", "set 0 " + k.Far[0] + " -", "size 0", "root 0", "add 1 " + k.Core[0], "fault 1 raw-w", "del 1 " + k.Core[0], "has 1 " + k.Core[0], "stream 1 0", "size 1", "add 1 " + k.Core[1], "add 1 " + k.Core[0], "has 1 " + k.Core[1], "size 1", "stream 1 0",
 		"del 1 " + k.Core[0], "has 1 " + k.Core[0], "stream 1 0", "size 1", "fault 1 off", "peek 1", "commit 1", "reopen 1", "stream 1 0", "size 1", "has 1 " + k.Core[1]})
+	corpus = append(corpus, []string{"open 0 map", "set 0 " + k.Core[0] + " 61", "fault 0 raw-r", "stream 0 0", "set 0 " + k.Core[1] + " 62", "has 0 " + k.Core[1], "size 0", "stream 0 1",
+		"commit 0", "reopen 0", "fault 0 off", "stream 0 0", "size 0"})
 	corpus = append(corpus, []string{"open 0 mapa:ppp", "set 0 " + k.Core[0] + " 61", "set 0 " + k.Core[1] + " 62", "fault 0 size-w", "del 0 " + k.Core[0], "size 0", "has 0 " + k.Core[0],
 		"stream 0 0", "peek 0", "fault 0 off", "del 0 " + k.Core[1], "size 0", "commit 0", "reopen 0", "size 0", "stream 0 0"})
 	for _, c := range corpus {
